@@ -20,6 +20,12 @@ BAD_SIGS = {
     "keyword-only": "self, *, tm",
     "foreign-name": "self, foo",
     "foreign-after-legal": "self, tm, speed",
+    "name-prefix-of-legal": "self, state",
+    "name-substring-of-legal": "self, call",
+    "one-letter-name": "self, t",
+    "underscore-name": "self, _",
+    "legal-name-with-suffix": "self, tm_",
+    "capitalised-legal-name": "self, Initial_call",
     "keyword-only-after-legal": "self, state_tm, *, initial_call",
 }
 HIER = {
@@ -105,7 +111,7 @@ def effective(case):
 
 _I = st.integers
 _MEMBER = st.tuples(_I(0, 5), _I(0, 9), _I(0, 7), _I(0, 15), _I(0, 2), _I(0, 3))
-_CASE = st.tuples(_I(0, 5), st.lists(st.lists(_MEMBER, max_size=3), min_size=4, max_size=4), _I(0, 15), _I(0, 120), _I(0, 7), _I(0, 2))
+_CASE = st.tuples(_I(0, 5), st.lists(st.lists(_MEMBER, max_size=3), min_size=4, max_size=4), _I(0, 15), _I(0, 120), _I(0, 13), _I(0, 2))
 NAMES = ["s0", "s1", "s2", "s3", "s4", "drive"]
 DOCS = [None, "first doc", "Second line of docs.", None]
 
@@ -179,10 +185,10 @@ class C12(Lab):
     rule = (
         "generated class definitions: hierarchy in {single, linear x2/x3, diamond, mix-in, AutonomousStateMachine}, 0-3 members per class drawn from 6 names (state / timed_state / "
         "default_state with first / must_finish flags, all 16 legal signatures, docstrings, or a plain method that overrides an inherited state), optionally one defect (state named like "
-        "an attribute of StateMachine, alias binding, state outside a StateMachine, one of 8 illegal signatures). Oracle from the statement: defects raise at class-definition time; "
+        "an attribute of StateMachine, alias binding, state outside a StateMachine, one of 14 illegal signatures). Oracle from the statement: defects raise at class-definition time; "
         "otherwise instantiation raises NoFirstState/MultipleFirstStates/MultipleDefaultStates iff the effective states (resolved through Python's own MRO) have 0 / >1 first or >1 "
         "default; accepted machines publish state_names == effective states (base classes first) with aligned state_descriptions, and calling a state directly raises IllegalCallError. "
-        "Enumerated: every name in dir(StateMachine) x 3 decorators, 8 illegal and 16 legal signatures x 3 decorators. Non-trivial = inheritance with an override, or a defect"
+        "Enumerated: every name in dir(StateMachine) x 3 decorators, 14 illegal and 16 legal signatures x 3 decorators. Non-trivial = inheritance with an override, or a defect"
     )
     assumptions = (
         "Python's own MRO (computed on dummy classes) is the reference for 'base classes first'",
@@ -191,7 +197,7 @@ class C12(Lab):
     )
     budgets = {"quick": 6000, "thorough": 200000}
     time_budget = {"quick": 80, "thorough": 1200}
-    exhaustive_note = "every attribute name of StateMachine (dir()) x 3 decorators; 8 illegal signature kinds x 3 decorators; 16 legal signatures x 3 decorators"
+    exhaustive_note = "every attribute name of StateMachine (dir()) x 3 decorators; 14 illegal signature kinds x 3 decorators; 16 legal signatures x 3 decorators"
 
     def setup(self):
         simenv.init()
